@@ -702,10 +702,10 @@ func init() {
 	core.Register(&core.Check{
 		ID:          "C20",
 		Level:       "exploration",
-		Rule:        "host trees (regular files of boundary sizes, a directory of 400 (thorough: 5000) entries later hash-indexed by e2fsck -fyD and then thinned by unlinking every third file with debugfs rm (slots with inode 0 in front of live entries), a directory of 560 (2 KiB blocks: 2300, 4 KiB: 8800) names of 241 bytes indexed by e2fsck -fyD into a hash tree of two levels whose index nodes are packed full, sparse files with 2/6/30/420 separate data runs so that extent trees get interior nodes, files beginning or ending with a hole, a 5 GiB sparse file with data runs on both sides of the 2 GiB and 4 GiB offsets (verified by seek+read probes of every run, its surroundings and the holes whose offsets alias a run modulo 2^31 and 2^32), fast and slow symlinks, modes/owners/times on every node, in-inode and block xattrs (also with an empty value) set with debugfs ea_set, a preallocated file with an unwritten extent made by debugfs fallocate; the image file is pre-filled with 0xA5 and mke2fs runs with nodiscard) are put into images by the reference mke2fs -d over a fixed option grid: ext4 with block 1k/2k/4k, inode 128/256, ^64bit, ^flex_bg, ^metadata_csum, ^dir_index, ^huge_file, sparse_super2, ^has_journal, plus ext3 and ext2 images without extents; ext4.Read then walks the image with bounded read loops: tree, contents (holes as zeros), sizes, modes, owners, mtimes, link targets and xattrs must equal the input; refusing an image is allowed (except mke2fs's default feature set); per-file errors are allowed only on block-mapped (ext2/ext3) images; wrong data, panics and reads that never finish are violations; non-trivial = an image the library agreed to open; distinct = distinct (options, shape)",
+		Rule:        "host trees (regular files of boundary sizes, a directory of 400 (thorough: 5000) entries later hash-indexed by e2fsck -fyD and then thinned by unlinking every third file with debugfs rm (slots with inode 0 in front of live entries), a directory of 560 (2 KiB blocks: 2300, 4 KiB: 8800) names of 241 bytes indexed by e2fsck -fyD into a hash tree of two levels whose index nodes are packed full, sparse files with 2/6/30/420 separate data runs so that extent trees get interior nodes, files beginning or ending with a hole, a 5 GiB sparse file with data runs on both sides of the 2 GiB and 4 GiB offsets (verified by seek+read probes of every run, its surroundings and the holes whose offsets alias a run modulo 2^31 and 2^32), fast and slow symlinks, modes/owners/times on every node, in-inode and block xattrs (also with an empty value) set with debugfs ea_set, a preallocated file with an unwritten extent made by debugfs fallocate; the image file is pre-filled with 0xA5 and mke2fs runs with nodiscard) are put into images by the reference mke2fs -d over a fixed option grid: ext4 with block 1k/2k/4k, inode 128/256, ^64bit, ^flex_bg, ^metadata_csum, ^dir_index, ^huge_file, sparse_super2, ^has_journal, plus ext3 and ext2 images without extents; ext4.Read then walks the image with bounded read loops: tree, contents (holes as zeros), sizes, modes, owners, mtimes, link targets and xattrs must equal the input; refusing an image is allowed (except mke2fs's default feature set); per-file errors are allowed only on block-mapped (ext2/ext3) images; wrong data, panics and reads that never finish are violations; modification times before 1970 (put in by mke2fs -d as negative seconds) and after 2038 (epoch bits of the extra field, set with debugfs set_inode_field on 256-byte inodes: 2044, 2200, 2440); non-trivial = an image the library agreed to open; distinct = distinct (options, shape)",
 		Assumptions: []string{"mke2fs/debugfs/e2fsck 1.47.0 are the reference producer; every image is verified clean by e2fsck before the library reads it", "the option grid is fixed (not seeded), so the set of findings on a given tree does not depend on VERIF_SEED"},
 		MinSigs:     map[string]int{"quick": 8, "thorough": 40},
-		NeedMarks:   []string{"options default-features", "file class sparse-file-with-data-beyond-4GiB", "directory entries unlinked with debugfs after mke2fs -d", "shape bigdir", "shape extents", "shape links", "shape htree2"},
+		NeedMarks:   []string{"modification time after 2038 set with debugfs", "options default-features", "file class sparse-file-with-data-beyond-4GiB", "directory entries unlinked with debugfs after mke2fs -d", "shape bigdir", "shape extents", "shape links", "shape htree2"},
 		CPUSec:      900,
 		Cases: func(seed int64, tier string) []core.Case {
 			r := gen.New(0xC20C20) // fixed grid
